@@ -622,7 +622,8 @@ func (p *Process) handleOutput(pipe io.ReadCloser, output string, handler func(m
 	reader := bufio.NewReader(pipe)
 	for {
 		line, err := reader.ReadString('\n')
-		if err != nil {
+		lastLine := err == io.EOF && line != ""
+		if err != nil && !lastLine {
 			if err == io.EOF {
 				break
 			}
@@ -642,6 +643,10 @@ func (p *Process) handleOutput(pipe io.ReadCloser, output string, handler func(m
 		}
 		p.checkElevatedProcOutput(line)
 		handler(strings.TrimSuffix(line, "\n"))
+		if lastLine {
+			// the output ended without a trailing newline: the final line was handled above
+			break
+		}
 	}
 	close(done)
 }
